@@ -234,6 +234,23 @@ def boundary_descs():
     return out
 
 
+def fixed_of_variable_descs():
+    """deterministic family: structs whose only variable-size parts sit inside FIXED-size arrays (`[str, 1]`, `[Optional[u16], 2]`,
+    an array of structs that hold a string), small enough to fit a machine word at their minimum size: "fixed length" must not be
+    read off the outermost constructor"""
+    out = []
+    for leaf in (("arr", ("str",), 1), ("arr", ("opt", ("u", 16)), 2), ("arr", ("dyn", ("u", 8)), 1), ("arr", ("struct", "VIn"), 2),
+                 ("arr", ("arr", ("opt", ("u", 3)), 2), 2)):
+        d = Desc()
+        d.all_structs = True
+        d.structs.append(("VIn", [("s", 0, ("str",)), ("k", 1, ("u", 4))]))
+        d.structs.append(("FV0", [("id", 0, ("u", 8)), ("x", 1, leaf)]))
+        d.structs.append(("FV1", [("x", 0, leaf), ("t", 1, ("u", 5))]))
+        d.structs.append(("FV2", [("in", 0, ("struct", "FV0")), ("t", 1, ("u", 3))]))
+        out.append(d)
+    return out
+
+
 # ------------------------------------------------------------------ values
 
 
